@@ -144,6 +144,13 @@ func (x *Exec) callFn(f *frame, ins ssa.Instruction, fn *ssa.Function, args, bin
 			args = []Value{x.U.Const(t.W, uint64(x.Cfg.SmallTables))}
 		}
 	}
+	if len(x.Cfg.NoResize) > 0 && (name == "(*"+xsyncPath+".Map).resize" || name == "(*"+xsyncPath+".MapOf).resize") {
+		if h, ok := args[2].(*Term); ok && h.IsConst() && x.Cfg.NoResize[int(h.Val)] {
+			// bound of this instance: executions that reach this resize request are outside it
+			x.Assume(g, x.U.False, fmt.Sprintf("this instance excludes executions that request a resize with hint %d (0=grow,1=shrink,2=clear)", h.Val))
+			return nil
+		}
+	}
 	if pruneCalls[name] && fn.Signature.Results().Len() == 0 {
 		if !x.feasible(x.act(g)) {
 			x.PrunedCalls++
@@ -415,6 +422,7 @@ func (x *Exec) stub(f *frame, ins ssa.Instruction, fn *ssa.Function, name string
 		return u.Ctz(args[0].(*Term)), true
 	// ----- atomics -----
 	case "sync/atomic.LoadPointer", "sync/atomic.LoadUint64", "sync/atomic.LoadInt64", "sync/atomic.LoadUint32", "sync/atomic.LoadInt32", "sync/atomic.LoadUintptr":
+		x.beginVis()
 		p := asPtr(args[0])
 		et := fn.Signature.Results().At(0).Type()
 		x.nilCheck(p, g, name, pos)
@@ -423,6 +431,7 @@ func (x *Exec) stub(f *frame, ins ssa.Instruction, fn *ssa.Function, name string
 		x.visible(g, name)
 		return v, true
 	case "sync/atomic.StorePointer", "sync/atomic.StoreUint64", "sync/atomic.StoreInt64", "sync/atomic.StoreUint32", "sync/atomic.StoreInt32", "sync/atomic.StoreUintptr":
+		x.beginVis()
 		p := asPtr(args[0])
 		et := fn.Signature.Params().At(1).Type()
 		x.nilCheck(p, g, name, pos)
@@ -431,6 +440,7 @@ func (x *Exec) stub(f *frame, ins ssa.Instruction, fn *ssa.Function, name string
 		x.visible(g, name)
 		return nil, true
 	case "sync/atomic.AddInt64", "sync/atomic.AddUint64", "sync/atomic.AddInt32", "sync/atomic.AddUint32":
+		x.beginVis()
 		p := asPtr(args[0])
 		et := fn.Signature.Results().At(0).Type()
 		x.nilCheck(p, g, name, pos)
@@ -442,6 +452,7 @@ func (x *Exec) stub(f *frame, ins ssa.Instruction, fn *ssa.Function, name string
 		x.visible(g, name)
 		return r, true
 	case "sync/atomic.CompareAndSwapInt64", "sync/atomic.CompareAndSwapUint64", "sync/atomic.CompareAndSwapInt32", "sync/atomic.CompareAndSwapUint32", "sync/atomic.CompareAndSwapPointer":
+		x.beginVis()
 		p := asPtr(args[0])
 		et := fn.Signature.Params().At(1).Type()
 		x.nilCheck(p, g, name, pos)
@@ -453,6 +464,7 @@ func (x *Exec) stub(f *frame, ins ssa.Instruction, fn *ssa.Function, name string
 		x.visible(g, name)
 		return r, true
 	case "(*sync/atomic.Value).Load":
+		x.beginVis()
 		p := asPtr(args[0])
 		x.nilCheck(p, g, name, pos)
 		x.raceAccess(p, 1, g, false, true, pos)
@@ -460,6 +472,7 @@ func (x *Exec) stub(f *frame, ins ssa.Instruction, fn *ssa.Function, name string
 		x.visible(g, name)
 		return v, true
 	case "(*sync/atomic.Value).Store":
+		x.beginVis()
 		p := asPtr(args[0])
 		x.nilCheck(p, g, name, pos)
 		x.raceAccess(p, 1, g, true, true, pos)
@@ -470,16 +483,20 @@ func (x *Exec) stub(f *frame, ins ssa.Instruction, fn *ssa.Function, name string
 		return nil, true
 	// ----- locks -----
 	case "(*sync.Mutex).Lock":
+		x.beginVis()
 		p := asPtr(args[0])
 		x.nilCheck(p, g, name, pos)
 		x.raceAccess(p, 1, g, true, true, pos)
 		st := x.loadRaw(p, types.Typ[types.Int32]).(*Term)
 		free := u.Eq(st, u.Const(32, 0))
-		x.blocking(g, free, "Mutex.Lock", pos)
+		x.blocking(g, free, func() *Term {
+			return u.Eq(x.loadRaw(p, types.Typ[types.Int32]).(*Term), u.Const(32, 0))
+		}, "Mutex.Lock", pos)
 		x.storeRaw(p, types.Typ[types.Int32], u.Const(32, 1), x.act(g))
 		x.visible(g, name)
 		return nil, true
 	case "(*sync.Mutex).Unlock":
+		x.beginVis()
 		p := asPtr(args[0])
 		x.nilCheck(p, g, name, pos)
 		x.raceAccess(p, 1, g, true, true, pos)
@@ -489,6 +506,7 @@ func (x *Exec) stub(f *frame, ins ssa.Instruction, fn *ssa.Function, name string
 		x.visible(g, name)
 		return nil, true
 	case "(*sync.Mutex).TryLock":
+		x.beginVis()
 		p := asPtr(args[0])
 		st := x.loadRaw(p, types.Typ[types.Int32]).(*Term)
 		free := u.Eq(st, u.Const(32, 0))
@@ -504,6 +522,7 @@ func (x *Exec) stub(f *frame, ins ssa.Instruction, fn *ssa.Function, name string
 		x.storeRaw(lp, types.NewInterfaceType(nil, nil), args[0], x.act(g))
 		return p, true
 	case "(*sync.Cond).Broadcast", "(*sync.Cond).Signal":
+		x.beginVis()
 		p := asPtr(args[0])
 		_, gp := x.condCells(p)
 		x.raceAccess(gp, 1, g, true, true, pos)
@@ -515,6 +534,7 @@ func (x *Exec) stub(f *frame, ins ssa.Instruction, fn *ssa.Function, name string
 		x.condWait(f, ins, asPtr(args[0]), g)
 		return nil, true
 	case "runtime.Gosched":
+		x.beginVis()
 		x.visible(g, name)
 		return nil, true
 	case "runtime.SetFinalizer":
@@ -631,6 +651,7 @@ func (x *Exec) intrinsic(f *frame, ins ssa.Instruction, fn *ssa.Function, name s
 		x.par(f, ins, args[0].(SliceV), g)
 		return nil, true
 	case "VxYield":
+		x.beginVis()
 		x.visible(g, "VxYield")
 		return nil, true
 	case "VxClockSet":
